@@ -1,10 +1,22 @@
 (* C01 - Satisfies returns the Boolean truth of the expression under the allowed list. *)
-From Spdx Require Import Props.Shipped Spec.Grammar Spec.Eval Model.Expand Proofs.ParseGrammar Proofs.Sat Proofs.Laws Proofs.ApiFacts Proofs.ExpandProof.
+From Spdx Require Import Props.Shipped Spec.Grammar Spec.Eval Model.Expand Proofs.ParseGrammar Proofs.Sat Proofs.Laws Proofs.ApiFacts Proofs.ExpandProof Model.ParseStack Proofs.ParseStack.
 Local Open Scope list_scope.
 
 (* precedence and grouping are those of the grammar: AND binds tighter than OR, parentheses group *)
 Theorem C01_parser_is_grammar ts n : p_tokens ts = Ok n <-> d_expr ts n.
 Proof. exact (parse_sound_complete ts n). Qed.
+
+(* the pipeline as the code runs it: scan, then the stack-of-groups parser of the current parse.go (Model/ParseStack.v);
+   every theorem below about parse / Satisfies is therefore about that algorithm *)
+Theorem C01_parse_as_written s :
+  parse T0 s = match s with
+               | [] => Err EEmptyString
+               | _ => match scan T0 s with Ok ts => ps_tokens ts | Err e => Err e | Panic => Panic | Fuel => Fuel end
+               end.
+Proof.
+  unfold parse. destruct s as [|c s']; [reflexivity|]. destruct (scan T0 (c :: s')); try reflexivity.
+  symmetry. apply stack_equals_recursive.
+Qed.
 
 (* for every valid expression and every valid non-empty allowed list, on any tables passing the checkers *)
 Theorem C01_general T : chk_words T = true -> chk_no_keyword_prefix T = true ->
@@ -42,5 +54,5 @@ Example C01_example :
 Proof. vm_compute. repeat split; reflexivity. Qed.
 
 (* axioms the property theorems of this file depend on (one traversal for all of them) *)
-Definition C01_theorems := (@C01_parser_is_grammar, @C01_general, @C01, @C01_alternatives, @C01_expand_denotes_the_function, @C01_expand_keeps_every_leaf).
+Definition C01_theorems := (@C01_parser_is_grammar, @C01_parse_as_written, @C01_general, @C01, @C01_alternatives, @C01_expand_denotes_the_function, @C01_expand_keeps_every_leaf).
 Redirect "assumptions/C01" Print Assumptions C01_theorems.
